@@ -613,6 +613,17 @@ def sweep_context(conv, root, rng, per_fd, sink, replay=None, model_reqs=None, w
                         sink.fail('oracle', 'kw-ambiguous:' + name,
                                   '[%s context] %s %r: positional -> %s but by keyword (%s) -> %s' % (
                                       conv, name, labels, base[:80], amb[0][0], amb[0][1]), case)
+                    else:
+                        # ... and every other spelling through plain name resolution (all overloads of the name
+                        # compete, the arguments are run-time values) must give what the positional one gives
+                        du = [(t, o) for t, o in outs_u if o != base]
+                        bump('name-resolution-spellings', len(outs_u))
+                        if du:
+                            kws = next((sorted(kwf) for tag, _, _, kwf in sp if tag == du[0][0]), [])
+                            sink.fail('oracle', 'spelling-overloaded:' + name,
+                                      '[%s context] %s %r through name resolution (all overloads of the name): positional '
+                                      '-> %s but %s (keywords %s) -> %s' % (conv, name, labels, base[:120], du[0][0],
+                                                                            ', '.join(kws), du[0][1][:120]), case)
             # (B) the model on the same spellings, against the real definition's own binding
             if model_reqs is not None:
                 calls = []
